@@ -29,7 +29,7 @@ def norm_slot(o):
                             'N': n['N'], 'tags': sorted(n['tags']), 'extras': n['extras'], 'ttc': n['ttc']}
                            for n in o['nodes']]),
         'ch': pairs(o['ch']), 'pa': pairs(o['pa']),
-        'atk': sort_set([{'h': a['h'], 'name': a['name']} for a in o['atk']]),
+        'atk': sort_set([{'h': a['h'], 'name': a['name'], 'id': a['id']} for a in o['atk']]),
         'reached': pairs(o['reached']), 'entry': pairs(o['entry']), 'compBy': pairs(o['compBy']),
     }
 
@@ -121,7 +121,7 @@ class GraphDriver:
                 for k, a in enumerate(G.attackers[before:]):
                     self.bind(act['a0'] + k, a)
             elif op == 'AddGAttacker':
-                a = Attacker(name='ga' if act['reqId'] == 99 else 'gb')
+                a = Attacker(name=act.get('name') or ('ga' if act['reqId'] == 99 else 'gb'))
                 self.bind(act['h'], a)
                 kw = {}
                 if act['reqId'] != 99:
@@ -328,7 +328,7 @@ class GraphDriver:
             self.seen_names[g].add(n.full_name)
         atk, reached, entry = [], [], []
         for a in G.attackers:
-            atk.append({'h': self.hof(a), 'name': a.name})
+            atk.append({'h': self.hof(a), 'name': a.name, 'id': a.id})
             for n in a.reached_attack_steps:
                 reached.append([self.hof(a), self.hof(n)])
             for n in a.entry_points:
